@@ -176,13 +176,14 @@ type corpusCase struct {
 var corpus = []corpusCase{
 	{"F1", "F01_lasso_rotation", [][2]int{{20, 12}}, "lasso", false},
 	{"F14", "F14_param_entered_from_inside", [][2]int{{21, 16}}, "ebe", false},
-	{"F3", "F02_F03_builtins", [][2]int{{15, 17}}, "", false},
-	{"F2", "F02_F03_builtins", [][2]int{{18, 19}}, "", false},
+	{"F3", "F02_F03_builtins", [][2]int{{16, 18}}, "", false},
+	{"F2", "F02_F03_builtins", [][2]int{{19, 20}}, "", false},
 	{"C01a", "C01a_closure_two_bound_vars", [][2]int{{16, 20}, {16, 21}}, "ebe", false},
 	{"C01b", "C01b_fs_access_path_cut", [][2]int{{22, 25}}, "path", true},
 	{"C01c", "C01c_fs_nontermination", [][2]int{{23, 28}}, "hang", true},
 	{"C01d", "C01d_nested_closure_seen_key", [][2]int{{22, 38}}, "ebe", false},
 	{"C01e", "C01e_fs_summary_edge_missing", [][2]int{{24, 42}}, "", true},
+	{"C01f", "C01f_global_field_store", [][2]int{{20, 16}, {21, 17}}, "", false},
 }
 
 func runCorpus(rep *lib.Report) {
